@@ -20,6 +20,9 @@ and the theorems of Props/C10Source.lean that are stated over these constants st
                               metrical_position_map) handed to note_array_from_note_list / rest_array_from_rest_list: the
                               columns the maps add, in dtype order
   C10_NA_PART_COLUMNS / C10_REST_PART_COLUMNS  the same for the include_* flags of note_array_from_part / rest_array_from_part
+  C10_ARG_SHAPES              (round 6) for each of the six maps (and metrical_position_map of a part without measures)
+                              and each kind of argument - number (int, np.int64), 0-dimensional array, sequence (list,
+                              tuple, 1-d array) -: one row or an array of rows
 
 The generator never raises (the shared translator must keep working for the other properties): what cannot be read is
 emitted as a neutral value, `C10_EXTRACTION_OK` becomes `false` with the reasons in `C10_EXTRACTION_NOTES`, and
@@ -61,7 +64,7 @@ def _ints(v, n):
 def _probe():
     notes = []
     res = {"ts": (0, 0, 0), "ks": (0, 0), "clef": (0, 0, 0), "clef_missing": (0, 0), "mn": 0, "mp": (0, 0),
-           "span": False, "origin": 0, "round": [], "na": [], "rest": [], "na_part": [], "rest_part": []}
+           "span": False, "origin": 0, "round": [], "na": [], "rest": [], "na_part": [], "rest_part": [], "shapes": []}
     try:
         import numpy as np
         import partitura.score as S
@@ -166,6 +169,39 @@ def _probe():
                 res[key + "_part"].append((flags, [c for c in got if c not in base_part]))
 
     attempt("note-array columns", columns)
+
+    # ---- round 6: ONE row or an ARRAY of rows, for each map and each kind of argument (Model/StepMapCalls.lean: the
+    #      wrapper's ndim test, scipy, the collator of clef_map, the `isinstance(input, Iterable)` test of
+    #      metrical_position_map - true for a 0-dimensional numpy array)
+    def arg_shapes():
+        q = S.Part("probe", quarter_duration=4)
+        q.add(S.TimeSignature(3, 4), 0)
+        q.add(S.Measure(1), 0, 12)
+        q.add(S.Measure(2), 12, 24)
+        q.add(S.Note("C", 4, 0, id="n0", voice=1, staff=1), 0, 24)
+        row_ndim = {"time_signature_map": 1, "key_signature_map": 1, "clef_map": 2, "measure_map": 1,
+                    "measure_number_map": 0, "metrical_position_map": 1}
+        kinds = [("scalar", [lambda: 5, lambda: np.int64(5)]), ("zerod", [lambda: np.array(5)]),
+                 ("seq", [lambda: [5, 7], lambda: (5, 7), lambda: np.array([5, 7])])]
+        out = []
+        for label, part, names in (("", q, list(row_ndim)), ("/no_measures", p, ["metrical_position_map"])):
+            for nm in names:
+                row = []
+                for kind, makers in kinds:
+                    seen = set()
+                    for mk in makers:
+                        r = getattr(part, nm)(mk())
+                        nd = row_ndim[nm] if isinstance(r, tuple) else np.asarray(r).ndim
+                        if nd not in (row_ndim[nm], row_ndim[nm] + 1):
+                            raise ValueError("%s(%s argument): result of %d dimensions" % (nm, kind, nd))
+                        seen.add(nd == row_ndim[nm])
+                    if len(seen) != 1:
+                        raise ValueError("%s: arguments of kind %s are not treated alike" % (nm, kind))
+                    row.append((kind, seen.pop()))
+                out.append((nm + label, row))
+        res["shapes"] = out
+
+    attempt("argument kinds", arg_shapes)
     for key in ("na", "rest", "na_part", "rest_part"):
         if len(res[key]) != 8:
             res[key] = []
@@ -179,7 +215,7 @@ def gen_c10():
         res, notes = None, ["probe failed: %s: %s" % (type(e).__name__, e)]
     if res is None:
         res = {"ts": (0, 0, 0), "ks": (0, 0), "clef": (0, 0, 0), "clef_missing": (0, 0), "mn": 0, "mp": (0, 0),
-               "span": False, "origin": 0, "round": [], "na": [], "rest": [], "na_part": [], "rest_part": []}
+               "span": False, "origin": 0, "round": [], "na": [], "rest": [], "na_part": [], "rest_part": [], "shapes": []}
     out = []
     w = out.append
     w("/- GENERATED by harness/translate_c10.py from the live partitura source - do not edit. -/")
@@ -212,6 +248,12 @@ def gen_c10():
         w(",\n".join("  ((%s, %s, %s), [%s])" % (_lbool(f[0]), _lbool(f[1]), _lbool(f[2]), ", ".join(_lstr(c) for c in cols))
                      for f, cols in res[key]))
         w("]\n")
+    w("/-- for each map (and `metrical_position_map` of a part without measures) and each kind of argument - a number,")
+    w("    a 0-dimensional array, a sequence - : does the call answer with ONE row (true) or an ARRAY of rows (false) -/")
+    w("def C10_ARG_SHAPES : List (String × List (String × Bool)) := [")
+    w(",\n".join("  (%s, [%s])" % (_lstr(nm), ", ".join("(%s, %s)" % (_lstr(k), _lbool(b)) for k, b in row))
+                 for nm, row in res.get("shapes", [])))
+    w("]\n")
     w("end Gen")
     return "\n".join(out) + "\n"
 
